@@ -183,6 +183,11 @@ class VC:
         return m_repr(x)
 
     def fstr(self, parts):
+        hook = getattr(self.spec, 'str_hook', None)     # a sidecar string abstraction (C04: atoms with symbolic lengths)
+        if hook is not None:
+            r = hook('__fstr__', None, (parts,), {})
+            if r is not NotImplemented:
+                return r
         if all(isinstance(p, str) for p in parts):
             return ''.join(parts)
         t = None
@@ -212,6 +217,11 @@ class VC:
 
     def meth(self, name, recv, *args, **kw):
         from .strings import str_method
+        hook = getattr(self.spec, 'str_hook', None)
+        if hook is not None:
+            r = hook(name, recv, args, kw)
+            if r is not NotImplemented:
+                return r
         if isinstance(recv, SV):
             r = recv.resolve(['VStr'])
             if r is not recv:
